@@ -305,7 +305,7 @@ impl C12 {
                 }
                 None
             };
-            let choice = rng.below(20);
+            let choice = rng.below(21);
             match choice {
                 0 | 1 => {
                     // symbols: a small name space so that re-creation is frequent
@@ -391,11 +391,34 @@ impl C12 {
                         1 => ("neg", via!(ctx, rng, sh, negate(x)), vec![w], Type::BV(w)),
                         2 => {
                             let by = rng.below(4) as u32 * rng.range(1, 40) as u32;
-                            ("zext", via!(ctx, rng, sh, zero_extend(x, by)), vec![by, w + by], Type::BV(w + by))
+                            let r = match rng.below(4) {
+                                // the generic helper builds the same expression
+                                0 => {
+                                    sh.count("calls_through_extend", 1);
+                                    ctx.extend(x, by, false)
+                                }
+                                1 => {
+                                    sh.count("calls_through_extend", 1);
+                                    ctx.build(|mut b| b.extend(x, by, false))
+                                }
+                                _ => via!(ctx, rng, sh, zero_extend(x, by)),
+                            };
+                            ("zext", r, vec![by, w + by], Type::BV(w + by))
                         }
                         3 => {
                             let by = rng.below(4) as u32 * rng.range(1, 40) as u32;
-                            ("sext", via!(ctx, rng, sh, sign_extend(x, by)), vec![by, w + by], Type::BV(w + by))
+                            let r = match rng.below(4) {
+                                0 => {
+                                    sh.count("calls_through_extend", 1);
+                                    ctx.extend(x, by, true)
+                                }
+                                1 => {
+                                    sh.count("calls_through_extend", 1);
+                                    ctx.build(|mut b| b.extend(x, by, true))
+                                }
+                                _ => via!(ctx, rng, sh, sign_extend(x, by)),
+                            };
+                            ("sext", r, vec![by, w + by], Type::BV(w + by))
                         }
                         4 => {
                             let iw = rng.range(1, 6) as u32;
@@ -514,6 +537,42 @@ impl C12 {
                         }
                     }
                 }
+                19 => {
+                    // the substitution API (what the unrolling uses to make step copies) is a builder too: its
+                    // result must be the reference the builder methods give for the substituted structure
+                    if sd.bv.is_empty() {
+                        continue;
+                    }
+                    let root = if !sd.arr.is_empty() && rng.chance(1, 4) { rng.pick(&sd.arr).0 } else { rng.pick(&sd.bv).0 };
+                    let nodes = r2::post_order(&ctx, &[root]);
+                    if nodes.len() < 2 || nodes.len() > 400 {
+                        continue;
+                    }
+                    let target = *rng.pick(&nodes[..nodes.len() - 1]);
+                    let tt = target.get_type(&ctx);
+                    let cands: Vec<ExprRef> = match tt {
+                        Type::BV(w) => sd.bv.iter().filter(|c| c.1 == w).map(|c| c.0).collect(),
+                        Type::Array(a) => sd.arr.iter().filter(|c| c.1 == a.index_width && c.2 == a.data_width).map(|c| c.0).collect(),
+                    };
+                    if cands.is_empty() {
+                        continue;
+                    }
+                    let repl = *rng.pick(&cands);
+                    let got = match util::catch(|| patronus::expr::simple_transform_expr(&mut ctx, root, |_, e, _| if e == target { Some(repl) } else { None })) {
+                        Ok(g) => g,
+                        Err(p) => return Err(Fail { sig: format!("C12|transform-panic|{}", p.loc()), detail: format!("simple_transform_expr panicked at {}: {}", p.loc(), util::trunc(&p.msg, 200)) }),
+                    };
+                    sh.hist("calls", "simple_transform_expr");
+                    let mut memo: FxHashMap<ExprRef, Option<ExprRef>> = Default::default();
+                    let Some(want) = substitute(&mut ctx, root, target, repl, &mut memo) else { continue };
+                    sh.count("substitutions_compared", 1);
+                    if got != want {
+                        return Err(Fail {
+                            sig: format!("C12|same-key-different-ref|transform|{}", r2::op_name(&ctx[got])),
+                            detail: format!("simple_transform_expr({:?}: {}, {:?} -> {:?}) returned {:?} = {}; building the substituted structure with the builder methods gives {:?} = {}", root, r2::render(&ctx, root), target, repl, got, show_key(&key_of(&ctx, got)), want, show_key(&key_of(&ctx, want))),
+                        });
+                    }
+                }
                 _ => {
                     // rebuild something that exists already, from its recorded key
                     if sd.by_ref.is_empty() {
@@ -574,6 +633,41 @@ fn key_kind(k: &Key) -> &'static str {
         Key::Lit(..) => "Lit",
         Key::Op(name, ..) => name,
     }
+}
+
+/// `root` with every occurrence of `target` replaced by `repl`, built bottom-up with the builder methods
+fn substitute(ctx: &mut Context, root: ExprRef, target: ExprRef, repl: ExprRef, memo: &mut FxHashMap<ExprRef, Option<ExprRef>>) -> Option<ExprRef> {
+    if root == target {
+        return Some(repl);
+    }
+    if let Some(m) = memo.get(&root) {
+        return *m;
+    }
+    let res = match key_of(ctx, root) {
+        Key::Op(name, kids, params) => {
+            let mut new_kids = vec![];
+            let mut ok = true;
+            for k in &kids {
+                match substitute(ctx, *k, target, repl, memo) {
+                    Some(n) => new_kids.push(n),
+                    None => {
+                        ok = false;
+                        break;
+                    }
+                }
+            }
+            if !ok {
+                None
+            } else if new_kids == kids {
+                Some(root)
+            } else {
+                rebuild(ctx, &Key::Op(name, new_kids, params))
+            }
+        }
+        _ => Some(root),
+    };
+    memo.insert(root, res);
+    res
 }
 
 fn rebuild(ctx: &mut Context, key: &Key) -> Option<ExprRef> {
